@@ -50,10 +50,21 @@ def run(tier):
             cases.append({"entry": ENTRIES[n % 4], "chan": "none", "profile": rnd.choice(profiles), "data": d,
                           "pclass": "ok", "dclass": c, "repeat": 3})
     obs = proto.run_cases("c04", cases)
+    # the same question for the FIRST call a process ever makes (no warm-up history, nothing cached, no earlier
+    # document): one process per text, the shortest texts (empty, blank, a lone bracket) and a sample of the rest
+    short = sorted([t for t in texts if len(t[0]) <= 2], key=lambda t: t[0])
+    rest = [t for t in texts if len(t[0]) > 2]
+    rnd.shuffle(rest)
+    first = []
+    for j, (d, c) in enumerate(short[:8] + rest[: (8 if tier == "quick" else 40)]):
+        first.append({"id": "c04-first-%03d" % j, "entry": ENTRIES[j % len(ENTRIES)], "chan": "none", "profile": profiles[j % 3],
+                      "data": d, "pclass": "ok", "dclass": c, "debug": False})
+    obs += vlib.run_harness("proto", first, "c04_first", shards=len(first), env={"ACVH_NO_WARMUP": "1"})
+    cases += first
     skipped = [o for o in obs if o.get("skipped") and "poisoned" not in o["skipped"]]
     if len(skipped) > len(obs) // 10:
         raise vlib.Infra("too many cases skipped (%d): %s" % (len(skipped), skipped[0]))
-    lines, byid = proto.to_trace(obs)
+    lines, byid = proto.to_trace(obs, "C04")
     rejected, tr = proto.validate_trace("c04", lines)
     bycase = {c["id"]: c for c in cases}
     for rid in sorted(rejected):
